@@ -1,6 +1,7 @@
 package object
 
 import (
+	"errors"
 	"io"
 
 	"github.com/go-git/go-git/v6/plumbing"
@@ -82,8 +83,15 @@ func (t *treeNoder) Children() ([]noder.Noder, error) {
 	// is is own parent.
 	parent := t.parent
 	if !t.isRoot() {
+		// Load the sub-tree by its id. Going through t.parent.Tree(t.name)
+		// would run the name through FindEntry's path validation and make
+		// the diff fail on directories whose names are unsafe to check out
+		// but valid per upstream Git (see transformChildren).
 		var err error
-		if parent, err = t.parent.Tree(t.name); err != nil {
+		if parent, err = GetTree(t.parent.s, t.hash); err != nil {
+			if errors.Is(err, plumbing.ErrObjectNotFound) {
+				return nil, ErrDirectoryNotFound
+			}
 			return nil, err
 		}
 	}
